@@ -298,14 +298,14 @@ def classify_stuck(out):
         return "no-completion-queue-choked-unqueued", ("the client's own download choke queue choked the connection (it stays queued but is marked "
                                                        "not interested), the peer's CHOKE then removed it from the queue and its UNCHOKE is ignored "
                                                        "because the client is 'not interested': nothing queues it again: " + m.group(1))
+    if g("int") == 0 and g("unch") == 1 and (g("licp") == 1 or (g("untouched") > 0 and g("invalid") > 0)):
+        return "no-completion-cancelled-pipe", ("a cancelled (invalidated) transfer still sits in the request queue and fills "
+                                                "the endgame pipe of 1; the client found nothing to request, dropped its "
+                                                "interest and nothing raises it again: " + m.group(1))
     if g("int") == 0 and g("unch") == 1 and g("miss") > 0 and g("listed") == g("miss"):
         return "no-completion-have-listed", ("the peer announced (HAVE) only pieces that are already listed in the transfer "
                                              "list; ChunkSelector::received_have_chunk ignores them, the client never "
                                              "declares interest again: " + m.group(1))
-    if g("int") == 0 and g("unch") == 1 and g("untouched") > 0 and g("invalid") > 0:
-        return "no-completion-cancelled-pipe", ("a cancelled (invalidated) transfer still sits in the request queue and fills "
-                                                "the endgame pipe of 1; the client found nothing to request, dropped its "
-                                                "interest and nothing raises it again: " + m.group(1))
     if g("unheld") > 0:
         return "no-completion-choke-stalled", ("the peer's CHOKE arrived when only stalled requests were listed; "
                                                "RequestList::choked returns early and keeps them, Block::insert then refuses "
